@@ -9,11 +9,20 @@
 //!        a synthesized, correctly signed transaction (`fixtures::synth`), values in the notation of stream `value`;
 //!        <legacy> = outputs and UTxO entries in the pre-Babbage array form; C/R/T = collateral inputs, collateral return,
 //!        total collateral (Alonzo and later; a Plutus script is then put in the witness set so that the collateral rules run)
+//!   fc <fixture> CI <value> R <value|-> T <total|->
+//!        a fixture that has collateral inputs, with the value of every collateral UTxO entry replaced by <value> and the body's
+//!        collateral return (key 16) / total collateral (key 17) replaced (`-` = field absent); through validate_txs
+//!   ld <babbage|conway> <value> <value>
+//!        `utils::lovelace_diff_or_fail` / `utils::conway_lovelace_diff_or_fail` on the two values, compared with
+//!        Model/PhaseOneArith.lovelaceDiffOrFail: reply `ok <n>` | `err` | `panic`
+//!   cb <alonzo|babbage|conway> <legacy 0|1> F <fee> P <percentage> C <n> <value>^n R <value|-> T <total|->
+//!        `check_collaterals_assets` of the era alone (verif_hooks) on a synthesized body + UTxO set, compared with
+//!        Model/PhaseOneArith.collateralAlonzo / collateralBalance: reply `ok` | `err <Error>` | `panic`
 //!   bw <fixture> <kind>
 //!        Byron witness / address corner: `script-addr` `other-addr` (UTxO address of type 1 / 7 with a witness present),
 //!        `short-key` `long-key` `short-sig` `long-sig` (witness key / signature of another length), `txin-other`
 //!
-//! replies: `ok total` | `panic`. The Lean side (Streams/ValTotal.lean) states the demanded class `ok total`; what is
+//! replies of mt / sv / fc / bw: `ok total` | `panic`. The Lean side (Streams/ValTotal.lean) states the demanded class `ok total`; what is
 //! *proved* about the modelled rules is in Props/C33.lean. `!viol` key = `panic <crate file> <message>`.
 use crate::fixtures::{self, params, synth, txparts, Fixture, InputRef, UtxoEntry};
 use crate::fw::*;
@@ -270,6 +279,133 @@ fn edgy_mint(g: &mut Gen) -> synth::Groups {
     m
 }
 
+
+// ------------------------------------------------------------------------------------------------ collateral scenarios
+
+fn enc_val(v: &Val) -> Vec<u8> { let mut e = Encoder::new(Vec::new()); synth::put_value(&mut e, &sval(v)); e.into_writer() }
+fn alonzo_value(v: &Val) -> Option<pallas_primitives::alonzo::Value> { minicbor::decode(&enc_val(v)).ok() }
+fn conway_value(v: &Val) -> Option<pallas_primitives::conway::Value> { minicbor::decode(&enc_val(v)).ok() }
+
+fn err_name(e: &pallas_validate::utils::ValidationError) -> String {
+    let d = format!("{e:?}");
+    d.split_once('(').map(|x| x.1.trim_end_matches(')').to_string()).unwrap_or(d)
+}
+
+/// `check_collaterals_assets` alone; `None` = the scenario does not decode
+fn run_cb(era: &str, legacy: bool, fee: u64, pct: u32, coll: Coll) -> Result<Option<Result<(), String>>, String> {
+    catch(|| {
+        let one = Val { multi: false, coin: 10_000_000, groups: vec![] };
+        let f = build_sv(era, legacy, &[one.clone()], &[Val { coin: 10_000_000u64.saturating_sub(fee), ..one }], fee, &None, &Some(coll));
+        let Ok(tx) = MultiEraTx::decode_for_era(f.era, &f.tx_cbor) else { return None };
+        let mut utxos = pallas_validate::utils::UTxOs::new();
+        for e in &f.utxo {
+            let Ok(o) = MultiEraOutput::decode(e.era, &e.cbor) else { return None };
+            utxos.insert(e.input.as_multi_era(), o);
+        }
+        let r = match (&tx, &f.env.prot_params) {
+            (MultiEraTx::AlonzoCompatible(t, _), P::Alonzo(p)) => { let mut p = p.clone(); p.collateral_percentage = pct; pallas_validate::phase1::alonzo::verif_hooks::check_collaterals_assets(&t.transaction_body, &utxos, &p) }
+            (MultiEraTx::Babbage(t), P::Babbage(p)) => { let mut p = p.clone(); p.collateral_percentage = pct; pallas_validate::phase1::babbage::verif_hooks::check_collaterals_assets(&t.transaction_body, &utxos, &p) }
+            (MultiEraTx::Conway(t), P::Conway(p)) => { let mut p = p.clone(); p.collateral_percentage = pct; pallas_validate::phase1::conway::verif_hooks::check_collaterals_assets(&t.transaction_body, &utxos, &p) }
+            _ => return None,
+        };
+        Some(r.map_err(|e| err_name(&e)))
+    })
+}
+
+/// top-level entries of a definite or indefinite CBOR map with unsigned keys
+fn map_entries(raw: &[u8]) -> Option<Vec<(u64, Vec<u8>)>> {
+    let mut d = minicbor::Decoder::new(raw);
+    let n = d.map().ok()?;
+    let mut entries = vec![];
+    let mut i = 0u64;
+    loop {
+        if let Some(n) = n { if i >= n { break; } } else if d.datatype().ok() == Some(minicbor::data::Type::Break) { break; }
+        let k = d.u64().ok()?;
+        let a = d.position();
+        d.skip().ok()?;
+        entries.push((k, raw[a..d.position()].to_vec()));
+        i += 1;
+    }
+    Some(entries)
+}
+fn map_from(entries: &[(u64, Vec<u8>)]) -> Vec<u8> {
+    let mut e = Encoder::new(Vec::new());
+    e.map(entries.len() as u64).unwrap();
+    let mut out = e.into_writer();
+    for (k, v) in entries { let mut ke = Encoder::new(Vec::new()); ke.u64(*k).unwrap(); out.extend(ke.into_writer()); out.extend(v); }
+    out
+}
+
+/// output bytes with `addr` and `v` in the form of `era` (Alonzo and earlier: array, later: map)
+fn output_bytes(era: Era, addr: &[u8], v: &Val) -> Vec<u8> {
+    let mut e = Encoder::new(Vec::new());
+    if matches!(era, Era::Babbage | Era::Conway) { e.map(2).unwrap().u8(0).unwrap().bytes(addr).unwrap().u8(1).unwrap(); } else { e.array(2).unwrap().bytes(addr).unwrap(); }
+    synth::put_value(&mut e, &sval(v));
+    e.into_writer()
+}
+
+/// the fixture with every collateral UTxO entry holding `ci` and the body's collateral return / total collateral replaced
+fn fixture_collateral(name: &str, ci: &Val, ret: &Option<Val>, total: Option<u64>) -> Option<Fixture> {
+    let mut f = fixtures::by_name(name)?;
+    if f.era == Era::Byron { return None; }
+    let cols: Vec<(Vec<u8>, u64)> = { let tx = MultiEraTx::decode_for_era(f.era, &f.tx_cbor).ok()?; tx.collateral().iter().map(|c| (c.hash().to_vec(), c.index())).collect() };
+    if cols.is_empty() { return None; }
+    let mut addr: Option<Vec<u8>> = None;
+    for e in f.utxo.iter_mut() {
+        let (h, i) = { let m = e.input.as_multi_era(); (m.hash().to_vec(), m.index()) };
+        if !cols.iter().any(|c| c.0 == h && c.1 == i) { continue; }
+        let a = MultiEraOutput::decode(e.era, &e.cbor).ok()?.address().ok()?.to_vec();
+        e.cbor = output_bytes(e.era, &a, ci);
+        addr.get_or_insert(a);
+    }
+    let addr = addr?;
+    let mut parts = txparts::split(f.era, &f.tx_cbor)?;
+    let mut entries = map_entries(&parts.body)?;
+    entries.retain(|e| e.0 != 16 && e.0 != 17);
+    if let Some(r) = ret { entries.push((16, output_bytes(f.era, &addr, r))); }
+    if let Some(t) = total { let mut e = Encoder::new(Vec::new()); e.u64(t).unwrap(); entries.push((17, e.into_writer())); }
+    entries.sort_by_key(|e| e.0);
+    parts.body = map_from(&entries);
+    f.tx_cbor = txparts::assemble(&parts);
+    Some(f)
+}
+
+/// collateral input value(s), collateral return and total collateral around one another: return absent / lovelace only /
+/// with the same / other assets, holding less, as much or more lovelace than the inputs; annotation exact, off by one, absent
+fn gen_collateral(g: &mut Gen, conway: bool, fee: u64, n_ins: usize) -> (Vec<Val>, Option<Val>, Option<u64>) {
+    let names: [Vec<u8>; 2] = [vec![0x01], vec![0x01, 0x00]];
+    let mut assets: synth::Groups = vec![];
+    if g.rng.chance(2, 3) {
+        for p in [0x11u8, 0x22] { if g.rng.chance(2, 3) { let mut a: Vec<(Vec<u8>, i128)> = vec![]; for n in &names { if g.rng.chance(2, 3) { a.push((n.clone(), g.rng.range(1, 900) as i128)); } } if !a.is_empty() { assets.push((p, a)); } } }
+    }
+    let base = match g.rng.below(6) { 0 => fee.saturating_mul(3) / 2, 1 => g.rng.u64_edgy(), 2 => g.rng.range(0, 3), _ => fee.saturating_mul(2).saturating_add(g.rng.range(0, 5_000_000)) };
+    let mut ins = vec![];
+    for i in 0..n_ins {
+        let coin = if i == 0 { base } else { g.rng.range(0, 3_000_000) };
+        // the assets sit in the first input (or in every input: then the sum differs from the return's)
+        let with = !assets.is_empty() && (i == 0 || g.rng.chance(1, 4));
+        ins.push(if with || g.rng.chance(1, 3) { Val { multi: true, coin, groups: if with { assets.clone() } else { vec![] } } } else { Val { multi: false, coin, groups: vec![] } });
+    }
+    let sum: u128 = ins.iter().map(|v| v.coin as u128).sum();
+    let sum64 = sum.min(u64::MAX as u128) as u64;
+    let ret_coin = match g.rng.below(8) { 0 => sum64, 1 => sum64.saturating_add(1), 2 => sum64.saturating_add(g.rng.range(2, 9_000_000)), 3 => sum64.saturating_sub(1), 4 => 0, 5 => u64::MAX, _ => sum64.saturating_sub(fee.saturating_mul(3) / 2).saturating_sub(g.rng.below(3)) };
+    let ret = match g.rng.below(8) {
+        0 => None,
+        1 | 2 => Some(Val { multi: false, coin: ret_coin, groups: vec![] }),
+        3 => Some(Val { multi: true, coin: ret_coin, groups: vec![] }),
+        4 => { let mut other = assets.clone(); match other.first_mut().and_then(|x| x.1.first_mut()) { Some(a) => a.1 += 1, None => other.push((0x33, vec![(vec![0x09], 4)])) } Some(Val { multi: true, coin: ret_coin, groups: other }) }
+        5 if !conway => { let mut z = assets.clone(); z.push((0x33, vec![(vec![0x09], 0)])); Some(Val { multi: true, coin: ret_coin, groups: z }) }
+        _ => Some(Val { multi: true, coin: ret_coin, groups: assets.clone() }),
+    };
+    let paid = sum64.saturating_sub(ret.as_ref().map(|r| r.coin).unwrap_or(0));
+    let total = match g.rng.below(5) { 0 => None, 1 => Some(paid.wrapping_add(1)), 2 => Some(paid.wrapping_sub(1)), _ => Some(paid) };
+    (ins, ret, total)
+}
+
+fn coll_text(c: &(Vec<Val>, Option<Val>, Option<u64>)) -> String {
+    format!("C {} {} R {} T {}", c.0.len(), c.0.iter().map(show_val).collect::<Vec<_>>().join(" "), c.1.as_ref().map(show_val).unwrap_or("-".into()), c.2.map(|t| t.to_string()).unwrap_or("-".into()))
+}
+
 pub fn generate(g: &mut Gen) {
     if let Err(w) = catch(|| generate_inner(g)) { eprintln!("valtotal generator panicked: {w}"); std::process::exit(101); }
 }
@@ -280,6 +416,7 @@ fn generate_inner(g: &mut Gen) {
     let mut first = vec![];
     for k in ["script-addr", "other-addr", "short-key", "long-key", "short-sig", "long-sig", "txin-other"] { first.push(format!("bw byron.successful_mainnet_tx {k}")); first.push(format!("bw byron.successful_mainnet_tx_with_genesis_utxos {k}")); }
     g.case(first);
+    let col_fixtures: Vec<String> = fx.iter().filter(|f| f.era != Era::Byron && MultiEraTx::decode_for_era(f.era, &f.tx_cbor).map(|t| !t.collateral().is_empty()).unwrap_or(false)).map(|f| f.name.to_string()).collect();
     for i in 0..g.cases {
         let mut ops = vec![];
         // mutated fixture
@@ -324,6 +461,35 @@ fn generate_inner(g: &mut Gen) {
                 line += &format!(" C {} {} R {} T {}", cins.len(), cins.iter().map(show_val).collect::<Vec<_>>().join(" "), ret.as_ref().map(show_val).unwrap_or("-".into()), total.map(|t| t.to_string()).unwrap_or("-".into()));
             }
             ops.push(line);
+        }
+        // collateral: the rule alone against its model, the two subtraction helpers, directed whole transactions, fixtures
+        for _ in 0..g.rng.range(1, 2) {
+            let era = *g.rng.pick(&["alonzo", "babbage", "conway", "conway"]);
+            let conway = era == "conway";
+            let legacy = g.rng.chance(1, 3);
+            let fee = g.rng.range(200_000, 900_000);
+            let n_ins = g.rng.range(1, 3) as usize;
+            let c = gen_collateral(g, conway, fee, n_ins);
+            let pct = *g.rng.pick(&[150u32, 150, 100, 0, 1000, u32::MAX]);
+            // only scenarios whose transaction and UTxO entries decode are compared with the model
+            if let Ok(Some(_)) = run_cb(era, legacy, fee, pct, Coll { ins: c.0.clone(), ret: c.1.clone(), total: c.2 }) {
+                ops.push(format!("cb {era} {} F {fee} P {pct} {}", legacy as u8, coll_text(&c)));
+            }
+            if era != "alonzo" {
+                let a = Val { multi: c.0[0].multi, coin: c.0.iter().map(|v| v.coin).fold(0u64, |x, y| x.saturating_add(y)), groups: c.0[0].groups.clone() };
+                let b = c.1.clone().unwrap_or(Val { multi: false, coin: 0, groups: vec![] });
+                let ok = if conway { conway_value(&a).is_some() && conway_value(&b).is_some() } else { alonzo_value(&a).is_some() && alonzo_value(&b).is_some() };
+                if ok { ops.push(format!("ld {era} {} {}", show_val(&a), show_val(&b))); }
+            }
+            // the same collateral section in a whole, correctly signed transaction
+            let one = Val { multi: false, coin: 10_000_000, groups: vec![] };
+            ops.push(format!("sv {era} {} I 1 {} O 1 {} F {fee} M - {}", legacy as u8, show_val(&one), show_val(&Val { coin: 10_000_000 - fee, ..one.clone() }), coll_text(&c)));
+        }
+        if !col_fixtures.is_empty() && g.rng.chance(1, 2) {
+            let name = &col_fixtures[(i + g.rng.below(col_fixtures.len() as u64) as usize) % col_fixtures.len()];
+            let conway = name.starts_with("conway");
+            let c = gen_collateral(g, conway, 400_000, 1);
+            ops.push(format!("fc {name} CI {} R {} T {}", show_val(&c.0[0]), c.1.as_ref().map(show_val).unwrap_or("-".into()), c.2.map(|t| t.to_string()).unwrap_or("-".into())));
         }
         g.case(ops);
     }
@@ -419,6 +585,48 @@ pub fn run_case(case: &Case, out: &mut Out) {
                 match built {
                     Err(w) => { out.reply(format!("bad-op harness-panic {}", w.replace(' ', "_"))); }
                     Ok(f) => report(out, &op.join(" "), run_scenario(&f)),
+                }
+            }
+            "fc" => {
+                let ci = parse_val(&op[3]);
+                let ret = if op[5] == "-" { None } else { Some(parse_val(&op[5])) };
+                let total = if op[7] == "-" { None } else { op[7].parse().ok() };
+                let built = catch(|| fixture_collateral(&op[1], &ci, &ret, total));
+                match built {
+                    Err(w) => out.reply(format!("bad-op harness-panic {}", w.replace(' ', "_"))),
+                    Ok(None) => out.reply("bad-op".into()),
+                    Ok(Some(f)) => { out.cov(format!("fc:{}", f.era_name())); report(out, &op.join(" "), run_scenario(&f)) }
+                }
+            }
+            "ld" => {
+                let (a, b) = (parse_val(&op[2]), parse_val(&op[3]));
+                let err = pallas_validate::utils::ValidationError::PostAlonzo(pallas_validate::utils::PostAlonzoError::NonLovelaceCollateral);
+                let r = catch(|| match op[1].as_str() {
+                    "conway" => match (conway_value(&a), conway_value(&b)) { (Some(x), Some(y)) => Some(pallas_validate::utils::conway_lovelace_diff_or_fail(&x, &y, &err)), _ => None },
+                    _ => match (alonzo_value(&a), alonzo_value(&b)) { (Some(x), Some(y)) => Some(pallas_validate::utils::lovelace_diff_or_fail(&x, &y, &err)), _ => None },
+                });
+                out.cov(format!("ld:{}", op[1]));
+                match r {
+                    Err(w) => { out.viol(panic_key(&w), format!("{}: panicked at {w}", op.join(" "))); out.panic(); }
+                    Ok(None) => out.reply("bad-op undecodable".into()),
+                    Ok(Some(Ok(n))) => { out.nontrivial(); out.ok(&n.to_string()); }
+                    Ok(Some(Err(_))) => { out.nontrivial(); out.reply("err".into()); }
+                }
+            }
+            "cb" => {
+                let era = op[1].as_str();
+                let legacy = op[2] == "1";
+                let (fee, pct): (u64, u32) = (op[4].parse().unwrap(), op[6].parse().unwrap());
+                let k: usize = op[8].parse().unwrap();
+                let cins: Vec<Val> = op[9..9 + k].iter().map(|t| parse_val(t)).collect();
+                let r = &op[9 + k..];
+                let coll = Coll { ins: cins, ret: if r[1] == "-" { None } else { Some(parse_val(&r[1])) }, total: if r[3] == "-" { None } else { r[3].parse().ok() } };
+                out.cov(format!("cb:{era}:{}", if legacy { "legacy" } else { "native" }));
+                match run_cb(era, legacy, fee, pct, coll) {
+                    Err(w) => { out.viol(panic_key(&w), format!("{}: panicked at {w}", op.join(" "))); out.panic(); }
+                    Ok(None) => out.reply("bad-op undecodable".into()),
+                    Ok(Some(Ok(()))) => { out.cov("cb:accepted"); out.nontrivial(); out.ok(""); }
+                    Ok(Some(Err(e))) => { out.cov(format!("cb:{e}")); out.nontrivial(); out.reply(format!("err {e}")); }
                 }
             }
             "bw" => {
